@@ -241,6 +241,14 @@ impl<'a> Gen<'a> {
                 lines.push(k);
             }
         }
+        // blanks at the end of a line are not part of its value
+        let trailing: Vec<&str> = (0..lines.len())
+            .map(|_| match self.rng.below(16) {
+                0 => "  ",
+                1 => "\t",
+                _ => "",
+            })
+            .collect();
         if !wrapper_free(path) {
             // array-literal languages: every content line is a string element
             lines = lines
@@ -253,6 +261,13 @@ impl<'a> Gen<'a> {
                     }
                 })
                 .collect();
+        }
+        if style != Style::Rich {
+            for (l, t) in lines.iter_mut().zip(trailing) {
+                if !l.is_empty() && !l.ends_with('\r') {
+                    l.push_str(t);
+                }
+            }
         }
         lines
     }
@@ -969,6 +984,12 @@ impl<'a> Gen<'a> {
         }
         if !self.world.args.list && self.rng.chance(1, 8) {
             self.world.args.dashdash = true;
+        }
+        // a type change: the added file replaces a symbolic link of the same name
+        for f in &mut self.world.files {
+            if matches!(f.diff, FileDiff::Added) && !f.path.contains(' ') && self.rng.chance(1, 12) {
+                f.was_symlink = true;
+            }
         }
         // what else a real diff carries: binary files, mode changes
         if self.rng.chance(1, 5) {
